@@ -90,6 +90,17 @@ def build(optmod):
     cs.append(Contract(MODULE + ':purge_tabs', params={'module': Mod()},
                        ensures=["arg_is('find_tab_paths', 0, module)", "arg_is('verify_paths', 0, found_paths())",
                                 "calls('unlink_modules') == 1", "arg_is('unlink_modules', 0, verified())"], env=env2))
+    # ... also when only one of the two generated modules exists (the other is reported missing): the one that is there is stale
+    # all the same and must go
+    for npresent in (1, 0):
+        def find_some(e, a, k, npresent=npresent):
+            rec['log'].append(('find_tab_paths', a, dict(k)))
+            rec['paths'] = PList([Str.fresh('path%d' % i) for i in range(npresent)])
+            return (rec['paths'], PList([Str.fresh('missing%d' % i) for i in range(2 - npresent)]))
+        cs.append(Contract(MODULE + ':purge_tabs', params={'module': Mod()},
+                           ensures=["arg_is('find_tab_paths', 0, module)", "arg_is('verify_paths', 0, found_paths())",
+                                    "calls('unlink_modules') == 1", "arg_is('unlink_modules', 0, verified())"],
+                           env=dict(env2, find_tab_paths=PExt('find_tab_paths', find_some)), notes='%d of the 2 generated modules present' % npresent))
     env3 = {'__reset__': reset, 'purge_tabs': PExt('purge_tabs', log('purge_tabs')),
             'calls': env2['calls'], 'arg_is': env2['arg_is'],
             'order': Helper(lambda e, a, b: [x[0] for x in rec['log']].index(a) < [x[0] for x in rec['log']].index(b))}
